@@ -176,6 +176,17 @@ PROPS = {
             "shipped": {"bin": "omni", "run": "TestC17", "kind": "plain"},
         },
     },
+    "C07": {
+        "level": "fault_enumeration",
+        "level_text": "Fault enumeration: for 5 three-request histories on both storages ALL single and ALL double fault masks over the interface-level call sites (WriteOps, GetLatest, Set, Close; plain and gRPC-coded) and SQL-driver call sites (begin, prepare, query, exec, stmtclose, commit-before-effect, rollback) are executed, plus generated longer histories with random masks; after every update: no write handle / pooled connection left checked out (deterministic leak detection), accepted => fault-free read-back equal, failed read => refused and unchanged, refusal => unchanged, and after the faults stop honest probes must be accepted. A watchdog turns a wedge into a report.",
+        "level_note": "Faults fail a call before it takes effect (a failed commit leaves no open transaction, as SQLite/mattn do); Close/rollback/stmt-close are always forwarded so the injection itself leaks nothing. SQLite :memory: with a pool of one connection through a wrapping database/sql driver.",
+        "technique": "exhaustive single/double fault-mask enumeration + property-based fault sequences (rapid) with invariant oracle",
+        "assumptions": HIST_ASSUME,
+        "parts": {
+            "enum": {"bin": "verifh", "run": "TestC07Enum", "kind": "plain", "shards": {"quick": 8, "thorough": 16}},
+            "hist": {"bin": "verifh", "run": "TestC07Hist", "checks": {"quick": 300, "thorough": 60000}, "shards": {"quick": 2, "thorough": 16}},
+        },
+    },
 }
 
 # properties not (yet) claimed: id -> reason
